@@ -1255,8 +1255,9 @@ def w_pbkdf(acc, task, seed):
 def w_sasl_single(acc, task, seed):
     saslprep = _psasl()
     acceptable = RS.acceptable
+    pre, post = task.get("wrap", ("", ""))
     for cp in range(task["lo"], task["hi"]):
-        ch = chr(cp)
+        ch = pre + chr(cp) + post
         acc.evaluations += 1
         try:
             got = ("ok", saslprep(ch))
@@ -1276,8 +1277,8 @@ def w_sasl_single(acc, task, seed):
             acc.outcome(f"saslprep:{got[0]}")
         if cp % 0x400 == 0:
             _, rc = sasl_ref_class(ch)
-            acc.cls("saslprep", "single", cp >> 10, rc)
-    acc.counters["saslprep_code_points_checked"] += task["hi"] - task["lo"]
+            acc.cls("saslprep", "single" if not pre else f"in_context:{ascii(pre)}", cp >> 10, rc)
+    acc.counters["saslprep_code_points_checked" if not pre else "saslprep_code_points_checked_in_RandAL_context"] += task["hi"] - task["lo"]
     acc.axis("saslprep_plane", task["lo"] >> 16)
 
 
@@ -1432,6 +1433,10 @@ def build_tasks(ctx):
     step = 0x4000
     for lo in range(0, 0x110000, step):
         T.append({"part": "saslprep.single", "lo": lo, "hi": lo + step, "w": 0.5})
+        # every code point once more between two R/AL characters (RFC 3454 section 6: the LCat table D.2 and the
+        # leading/trailing rule only come into play there), in a Hebrew and in an Arabic frame
+        for wrap in (("\u05d0", "\u05d0"), ("\u0627", "\u0628")):
+            T.append({"part": "saslprep.single", "lo": lo, "hi": lo + step, "wrap": wrap, "w": 0.6})
     nrep = len(SASL_REPS)
     T.append({"part": "saslprep.strings", "prefix": [], "lengths": [0, 1, 2], "w": 0.1})
     if quick:
